@@ -40,7 +40,12 @@ RULE = ('For each of the 4 writer/loader pairs (status.txt; output.txt+output.js
         '(open / write / flush / close / rename / remove): a crash before the entry and, for entries that move data, after '
         'none/half/all-but-the-last byte of it (after the crash nothing else reaches the disk), and an I/O error raised '
         'by the entry (data entries: after none/half of the data) after which the code under test continues and the '
-        'remaining updates are performed cleanly and judged. Each (target, history, judged update, file, fault, model) '
+        'remaining updates are performed cleanly and judged. Two further fault classes per boundary: a PERSISTENT I/O error '
+        '(from the entry on, every later operation of the same class [data / link / dir / unlink] of the update fails too, '
+        'or every later operation at all; for the instance files the quick tier starts them at every entry except the interior '
+        'of a run of writes, thorough at every entry) and a TWO-STAGE fault (the one-shot I/O error followed by a crash at '
+        'each entry of the error-handling path, i.e. of the operations the writer performed after the error that are not the '
+        'resumption of the recorded sequence). Each (target, history, judged update, file, fault, model) '
         'is one evaluation; it is non-trivial when a fault was injected or the history contains an awkward string or '
         'has >=2 updates; distinct = distinct such tuples.')
 ASSUMPTIONS = [
@@ -49,7 +54,9 @@ ASSUMPTIONS = [
     'two file models bracket the real buffered file object: unbuffered (every write() call is a crash point and the disk '
     'holds every prefix of the data) and buffered (nothing reaches the disk before flush()/close() or 8 KiB); in the '
     'buffered model data pending at a failed flush()/close() is lost (not retried)',
-    'single fault per history; after an I/O error every later operation succeeds',
+    'one fault scenario per history: a crash; a one-shot I/O error (every later operation succeeds); an I/O error that '
+    'persists until the end of that update (later updates succeed); or a one-shot I/O error followed by a crash inside the '
+    'error-handling path of the same update',
     'the statement is judged per file (each file is previous-or-new); no cross-file consistency is required',
     'a missing output.txt / output.json and an empty listing are the same logical value (no key-output produced yet)',
     'output.txt is an INI listing: its values are compared modulo leading/trailing blanks (the format cannot carry them); '
@@ -660,7 +667,7 @@ def short_log(log):
 
 
 def run_history(col, target, fault=None, k=None, judge_clean=True, log_of=None, snaps=None, full_bytes=None,
-                buffered=False):
+                buffered=False, strict=True):
     """Executes updates 1..n of target's history; `fault` (verif.faultfs.Fault) is injected in update k.
 
     clean run (fault None): every update is judged for fidelity when judge_clean; returns {j: write log of update j}.
@@ -702,7 +709,9 @@ def run_history(col, target, fault=None, k=None, judge_clean=True, log_of=None, 
             if not fs.fired:
                 raise HarnessError('fault %r was not reached in update %d of %s %r (log has %d entries)'
                                    % (this_fault, j, target.name, target.params, len(fs.log)))
-            if crashed != (this_fault.kind == 'crash'):
+            if this_fault.then_crash is not None and not fs.crash_fired and strict:
+                raise HarnessError('fault %r: the crash entry was not reached (log has %d entries)' % (this_fault, len(fs.log)))
+            if crashed != (this_fault.kind == 'crash' or fs.crash_fired):
                 raise HarnessError('fault %r: crashed=%s' % (this_fault, crashed))
         elif crashed:
             raise HarnessError('Crash without a fault')
@@ -713,11 +722,11 @@ def run_history(col, target, fault=None, k=None, judge_clean=True, log_of=None, 
         # ---------------- judge update j
         if this_fault is not None:
             op = log_of[this_fault.op] if log_of is not None else fs.log[this_fault.op]
-            mode = '%s@%s' % (this_fault.kind, op.name)
+            mode = '%s@%s' % (fault_kind(this_fault), op.name)
             fault_file = os.path.basename(op.path)
         elif fault is not None:
             op = log_of[fault.op] if log_of is not None else None
-            mode = 'after-ioerror@%s' % (op.name if op else '?')
+            mode = 'after-%s@%s' % (fault_kind(fault), op.name if op else '?')
             fault_file = os.path.basename(op.path) if op else None
         else:
             mode, fault_file = 'clean', None
@@ -768,6 +777,9 @@ def run_history(col, target, fault=None, k=None, judge_clean=True, log_of=None, 
             col.outcome('FAIL:%s:%s:%s%s:%s' % (target.name, label, 'buffered-' if buffered and fault is not None else '', mode, coarse(shp)))
             if this_fault is not None:
                 what = describe_fault(this_fault, short_log(log_of if log_of is not None else fs.log))
+                if this_fault.then_crash is not None:
+                    cop = short_log(fs.log)[this_fault.then_crash]
+                    what += ' = %s(%s)' % (cop.name, cop.path)
                 why = ('%s %s: after a %s in update %d [%s file model] the loader returns neither the previous nor the '
                        'new version (%s)' % (target.name, label, what, j, 'buffered' if buffered else 'unbuffered', shp))
             elif fault is not None:
@@ -782,6 +794,15 @@ def run_history(col, target, fault=None, k=None, judge_clean=True, log_of=None, 
         if crashed:
             break
     return logs
+
+
+def fault_kind(fault):
+    """'crash' | 'ioerror' | 'ioerror-persistent-class' | 'ioerror-persistent-all' | 'ioerror-then-crash'"""
+    if fault.kind == 'ioerror' and fault.then_crash is not None:
+        return 'ioerror-then-crash'
+    if fault.kind == 'ioerror' and fault.persist:
+        return 'ioerror-persistent-%s' % fault.persist
+    return fault.kind
 
 
 def coarse(shp):
@@ -804,7 +825,7 @@ def make_target(root, name, params):
 
 def worker(col, item, tier, seed):
     """item: {'target', 'params', 'faults': None | list of update indices k, 'judge_clean': bool}"""
-    from verif.faultfs import enumerate_faults
+    from verif.faultfs import Fault, enumerate_faults, enumerate_persistent_faults, error_path_entries
     from verif.gen.pkg import scratch_dir
     thorough = tier == 'thorough'
     with scratch_dir('c14-') as root:
@@ -826,10 +847,26 @@ def worker(col, item, tier, seed):
                     if sl == 0:
                         col.count('write_log_entries_buffered' if buffered else 'write_log_entries', len(log))
                     for fault in enumerate_faults(log, both_errnos=thorough)[sl::of]:
+                        flogs = run_history(col, target, fault=fault, k=k, log_of=log, snaps=snaps, full_bytes=full_bytes,
+                                            buffered=buffered)
+                        col.count('faults_injected')
+                        col.count('crash_points' if fault.kind == 'crash' else 'io_errors')
+                        if fault.kind != 'ioerror':
+                            continue
+                        # second stage: the process dies at an entry of the path the writer took BECAUSE of the error
+                        for m in error_path_entries(log, fault, flogs[k]):
+                            two = Fault('ioerror', fault.op, fault.prefix, fault.err, then_crash=m)
+                            run_history(col, target, fault=two, k=k, log_of=log, snaps=snaps, full_bytes=full_bytes,
+                                        buffered=buffered)
+                            col.count('faults_injected')
+                            col.count('error_path_crash_points')
+                    # errors that persist: the retry / clean-up of the writer fails as well
+                    edges = item['target'] == 'instance' and not thorough
+                    for fault in enumerate_persistent_faults(log, edges_only=edges)[sl::of]:
                         run_history(col, target, fault=fault, k=k, log_of=log, snaps=snaps, full_bytes=full_bytes,
                                     buffered=buffered)
                         col.count('faults_injected')
-                        col.count('crash_points' if fault.kind == 'crash' else 'io_errors')
+                        col.count('persistent_io_errors')
             shutil.rmtree(sub, ignore_errors=True)
     # keep a few examples per failure class and work item (all failures stay counted in n_failures / known_counts), so
     # that one prolific class cannot crowd the others out of the runner's bounded list of examples
@@ -932,8 +969,10 @@ def replay(ctx, case):
             logs = run_history(_Only(ctx, None), target, judge_clean=False, snaps=snaps)
             buffered = bool(case.get('buffered'))
             log, full_bytes = reference_update(target, case['k'], snaps, buffered)
+            # strict=False: on a tree whose error-handling path no longer has the recorded crash entry the case is judged
+            # as the plain I/O error it then is (instead of a harness error)
             run_history(_Only(ctx, case), target, fault=Fault.from_json(case['fault']), k=case['k'], log_of=log,
-                        snaps=snaps, full_bytes=full_bytes, buffered=buffered)
+                        snaps=snaps, full_bytes=full_bytes, buffered=buffered, strict=False)
 
 
 class _Only:
